@@ -38,13 +38,14 @@ Proof. intros ->. reflexivity. Qed.
 
 Theorem frame_agree : known_C19_frame f = false -> parse_notify f = Ok (rfc_reply_id f).
 Proof.
-  intros Hk. unfold parse_notify, parse_notify_s, rfc_reply_id, icmp_message.
+  intros Hk. pose proof Hok as Hok'. pose proof Hlen as Hlen'.
+  unfold parse_notify, parse_notify_s, rfc_reply_id, icmp_message.
   cbn [len of_bytes]. destruct (Nat.ltb_spec (List.length f) 14) as [L14|L14]; [reflexivity|].
   rewrite idx_ok by (cbn [len of_bytes]; lia). cbn [bind arr of_bytes]. unfold at_.
   rewrite land1. destruct (nth 6 f 0 mod 2 =? 0) eqn:Emc; cbn [negb]; [|reflexivity].
   rewrite be16_at_ok by (unfold cap; cbn [arr of_bytes]; lia). cbn [bind arr of_bytes].
   unfold word_at, at_. change (12 + 1)%nat with 13%nat.
-  unfold known_C19_frame, known_C19_iphdr, known_C19_family, known_C19_totallen, is_ip4, is_ip6,
+  unfold known_C19_frame, known_C19_iphdr, known_C19_family, known_C19_totallen, known_C19_paylen, is_ip4, is_ip6,
     word_at, at_ in Hk. change (12 + 1)%nat with 13%nat in Hk. change (16 + 1)%nat with 17%nat in Hk.
   set (et := be16 (nth 12 f 0) (nth 13 f 0)) in *.
   unfold ETH_P_IP, ETH_P_IPV6.
@@ -115,34 +116,33 @@ Proof.
     rewrite be16_at_ok by (unfold cap; cbn [arr]; rewrite skipn_length; lia). cbn [bind arr].
     rewrite !nth_skipn.
     change (14 + 4)%nat with 18%nat. change (14 + (4 + 1))%nat with 19%nat. change (14 + 0)%nat with 14%nat.
+    change (18 + 1)%nat with 19%nat in Hk.
     assert (H54 : Nat.leb 54 (List.length f) = true) by (apply Nat.leb_le; lia).
     rewrite H54 in Hk. rewrite !andb_false_r in Hk. cbn [andb orb] in Hk.
     set (b0 := nth 14 f 0) in *. set (pl := be16 (nth 18 f 0) (nth 19 f 0)) in *.
-    assert (Hv : b0 / 16 =? 6 = true /\ nth 20 f 0 =? 1 = false).
-    { destruct (b0 / 16 =? 6), (nth 20 f 0 =? 1); cbn in Hk; try discriminate; auto. }
-    destruct Hv as (Hver & H1).
+    assert (Hv : b0 / 16 =? 6 = true /\ nth 20 f 0 =? 1 = false /\ pl <? 8 = false).
+    { destruct (b0 / 16 =? 6), (nth 20 f 0 =? 1), (pl <? 8); cbn in Hk; try discriminate; auto. }
+    destruct Hv as (Hver & H1 & Hpl8).
     rewrite Hver. cbn [andb].
-    assert (Hpl : pl < 65536) by (unfold pl; apply be16_lt; apply bytes_ok_nth; exact Hok).
-    assert (Eeq : Nat.eqb (N.to_nat (u16 (pl + 40))) (List.length f - 14) = Nat.eqb (40 + N.to_nat pl) (List.length f - 14)).
-    { unfold u16. destruct (Nat.eqb_spec (40 + N.to_nat pl) (List.length f - 14)) as [Eq|Ne].
-      - apply Nat.eqb_eq. assert (pl + 40 < 65536) by lia. rewrite N.mod_small by lia. lia.
-      - apply Nat.eqb_neq. intros Eq. apply Ne.
-        assert (Hm : (pl + 40) mod 65536 = pl + 40 \/ (pl + 40) mod 65536 < 40) by lia.
-        destruct Hm as [Hm|Hm]; lia. }
-    rewrite Eeq.
-    destruct (Nat.eqb_spec (40 + N.to_nat pl) (List.length f - 14)) as [Eq|Ne]; cbn [negb andb]; [|reflexivity].
+    replace (Nat.ltb (List.length f - 14) (N.to_nat pl + 40)) with (negb (Nat.leb (40 + N.to_nat pl) (List.length f - 14))).
+    2:{ destruct (Nat.leb_spec (40 + N.to_nat pl) (List.length f - 14)), (Nat.ltb_spec (List.length f - 14) (N.to_nat pl + 40)); try reflexivity; lia. }
+    destruct (Nat.leb_spec (40 + N.to_nat pl) (List.length f - 14)) as [Lpl|Lpl]; cbn [negb andb]; [|reflexivity].
     rewrite idx_ok by (cbn [len]; lia). cbn [bind arr]. rewrite nth_skipn. change (14 + 6)%nat with 20%nat.
     rewrite slfrom_ok by (cbn [len of_bytes]; lia). cbn [bind].
     unfold icmp_notify, IPPROTO_ICMP, IPPROTO_ICMPV6, ICMP4TypeEchoReply, ICMP6TypeEchoReply.
     rewrite H1. cbn [orb]. cbn [len of_bytes arr].
     destruct (nth 20 f 0 =? 58) eqn:Ep; [|reflexivity].
-    rewrite !skipn_length.
-    replace (List.length f - 14 - 40)%nat with (List.length f - 54)%nat by lia.
-    destruct (Nat.ltb_spec (List.length f - 54) 8) as [L8|L8]; [reflexivity|].
-    rewrite idx_ok by (cbn [len]; lia). cbn [bind arr]. rewrite !nth_skipn.
+    assert (Hpl8' : (8 <= N.to_nat pl)%nat) by lia.
+    assert (Ec : Nat.ltb (List.length f - 54) 8 = false) by (apply Nat.ltb_ge; lia). rewrite Ec.
+    rewrite firstn_length, !skipn_length.
+    assert (Ed : Nat.ltb (Nat.min (N.to_nat pl) (List.length f - 14 - 40)) 8 = false) by (apply Nat.ltb_ge; lia).
+    rewrite Ed.
+    rewrite idx_ok by (cbn [len]; lia). cbn [bind arr].
+    rewrite (nth_firstn _ _ 0%nat) by lia. rewrite !nth_skipn.
     change (54 + 0)%nat with 54%nat. change (14 + (40 + 0))%nat with 54%nat.
     destruct (nth 54 f 0 =? 129); [|reflexivity].
     rewrite be16_at_ok by (unfold cap; cbn [arr]; rewrite skipn_length; lia). cbn [bind arr].
+    rewrite (nth_firstn _ _ 4%nat) by lia. rewrite (nth_firstn _ _ (4 + 1)%nat) by lia.
     rewrite !nth_skipn. reflexivity.
 Qed.
 
@@ -184,17 +184,16 @@ Proof. intros Hok Hl Hk. eexists. apply frame_agree; auto. Qed.
 
 Theorem ping_foreign fx n pre p mid post s :
   n < 65536 ->
-  run fx (init n) (pre ++ Begin p true :: mid ++ End p :: post) = Ok s ->
-  always fx young (init n) (pre ++ Begin p true :: mid ++ End p :: post) ->
-  ~ In (End p) mid ->
+  run fx (init n) (pre ++ Begin p :: mid ++ End p :: post) = Ok s ->
+  always fx young (init n) (pre ++ Begin p :: mid ++ End p :: post) ->
   (forall e, In e mid ->
      (exists f, e = frame_event f /\ bytes_ok f /\ N.of_nat (List.length f) <= 65535 /\
                 known_C19_frame f = false /\ rfc_reply_id f <> id_of s p)
      \/ (forall j, e <> Notify j)) ->
   result_of s p = Some RTimeout.
 Proof.
-  intros Hn Hrun Hal Hnm Hmid.
-  destruct (ping_iff _ _ _ _ _ _ _ Hn Hrun Hal Hnm) as (i & Hid & _ & Hto).
+  intros Hn Hrun Hal Hmid.
+  destruct (ping_iff _ _ _ _ _ _ _ Hn Hrun Hal) as (i & Hid & _ & Hto).
   apply Hto. intros Hin. destruct (Hmid _ Hin) as [(f & Ef & Hok & Hl & Hk & Hne)|Hno].
   - unfold frame_event in Ef. rewrite (frame_agree f Hok Hl Hk) in Ef.
     destruct (rfc_reply_id f) as [j|]; [|discriminate]. injection Ef as Eij. apply Hne. rewrite Hid, Eij. reflexivity.
@@ -225,6 +224,18 @@ Definition w_reply6 : bytes :=
   [0; 85; 85; 85; 85; 85; 2; 25; 0; 0; 0; 0; 134; 221; 96; 0; 0; 0; 0; 8; 58; 64;
    254; 128; 0; 0; 0; 0; 0; 0; 0; 0; 0; 0; 0; 25; 0; 20; 254; 128; 0; 0; 0; 0; 0; 0; 0; 0; 0; 0; 0; 1; 1; 41;
    129; 0; 128; 92; 0; 7; 0; 1].
+
+(* IPv6 PayloadLength 4; the frame carries the 8-byte echo reply *)
+Definition w_paylen : bytes :=
+  [0; 85; 85; 85; 85; 85; 2; 25; 0; 0; 0; 0; 134; 221; 96; 0; 0; 0; 0; 4; 58; 64;
+   254; 128; 0; 0; 0; 0; 0; 0; 0; 0; 0; 0; 0; 25; 0; 20; 254; 128; 0; 0; 0; 0; 0; 0; 0; 0; 0; 0; 0; 1; 1; 41;
+   129; 0; 128; 92; 0; 7; 0; 1].
+
+Theorem frame_agree_refuted_paylen :
+  bytes_okb w_paylen = true /\ known_C19_iphdr w_paylen = false /\ known_C19_family w_paylen = false /\
+  known_C19_totallen w_paylen = false /\ known_C19_paylen w_paylen = true /\
+  parse_notify w_paylen = Ok (Some 7) /\ rfc_reply_id w_paylen = None.
+Proof. vm_compute. repeat split. Qed.
 
 Theorem frame_agree_refuted_iphdr :
   bytes_okb w_iphdr = true /\ known_C19_iphdr w_iphdr = true /\
